@@ -402,11 +402,30 @@ class ProgGen(object):
         self.loop_reassign = []               # per enclosing loop: set of outer handle names that may be re-selected
         self.uppercase = rng.random() < 0.15
         self.pure_only = 0
+        self.str_bound = 8       # upper bound on the length of any string value so far (growth control)
+        self.int_bits = 8        # upper bound on the bit size of any integer value so far
 
     # -- environment ---------------------------------------------------------------------------
     def fresh(self, stem):
         self.counter += 1
         return '%s%s%d' % (self.prefix, stem, self.counter)
+
+    # growth control: inside loops (and once values are large) a string expression has at most one non-literal
+    # leaf and a product has a literal factor, so sizes grow linearly in the number of executed statements
+    def tight_str(self):
+        return self.loop_depth > 0 or self.str_bound > 3000
+
+    def tight_int(self):
+        return self.loop_depth > 0 or self.int_bits > 2000
+
+    def note_value(self, ty, e):
+        if self.loop_depth > 0:
+            return
+        if ty == 'string':
+            k = _nonliteral_leaves(e)
+            self.str_bound = max(self.str_bound, k * self.str_bound + 12)
+        elif ty == 'integer':
+            self.int_bits = max(self.int_bits, _bits(e, self.int_bits))
 
     def lookup(self, name):
         for sc in reversed(self.scopes):
@@ -553,6 +572,8 @@ class ProgGen(object):
             x = self._int(depth - 1, True, extra)
             return ['bin', '%', ['bin', '*', x, x], ['int', r.choice([1, 2, 3, 5, 7])]]
         op = r.choice(['+', '+', '-', '-', '*'])
+        if op == '*' and self.tight_int():
+            return ['bin', op, self._int(depth - 1, False, extra), ['int', r.choice([2, 3, -1, -2, 0, 5])]]
         return ['bin', op, self._int(depth - 1, False, extra), self._int(depth - 1, False, extra)]
 
     def _str(self, depth, leaf, extra):
@@ -567,6 +588,10 @@ class ProgGen(object):
             e = self._call_expr('string', depth - 1, extra)
             if e is not None:
                 return e
+        if self.tight_str():
+            lit = ['str', r.choice(STRINGS)]
+            one = self._str(0, True, extra)
+            return ['bin', '+', one, lit] if r.random() < 0.5 else ['bin', '+', lit, one]
         return ['bin', '+', self._str(depth - 1, False, extra), self._str(depth - 1, False, extra)]
 
     def _uid(self, extra):
@@ -738,6 +763,7 @@ class ProgGen(object):
         else:
             name = self.fresh({'integer': 'i', 'string': 's', 'boolean': 'f', 'unique_id': 'k'}[ty])
         self.declare(name, V(ty))
+        self.note_value(ty, e)
         return [['assign', name, e]]
 
     def st_setattr(self, depth):
@@ -751,6 +777,7 @@ class ProgGen(object):
         e = self.gen_expr(t, 2)
         if e is None:
             return None
+        self.note_value(t, e)
         return [['setattr', h, a, e]]
 
     def target_inst_var(self, cls):
@@ -1035,17 +1062,19 @@ class ProgGen(object):
             return None
         l = r.choice(ls)
         ta, tx = self.fresh('a'), self.fresh('x')
-        self.declare(ta, V('inst', 'A', False))
-        self.declare(tx, V('inst', 'X', False))
         pre = [['select_rel', 'one', ta, ['var', l], [['A', 'R4', '']], None],
                ['select_rel', 'one', tx, ['var', l], [['X', 'R4', '']], None]]
         if kind == 'R4u':
+            self.declare(ta, V('inst', 'A', False))
+            self.declare(tx, V('inst', 'X', False))
             cond = ['bin', 'and', ['un', 'not_empty', ['var', ta]], ['un', 'not_empty', ['var', tx]]]
             body = [['unrelate_using', ta, tx, 'R4', '', l] if r.random() < 0.5 else ['unrelate_using', tx, ta, 'R4', '', l]]
-            return pre + [['if', cond, body, [], None]]
+            return self.guard_ne([l], pre + [['if', cond, body, [], None]])
         if r.random() < 0.5:
-            return pre[:1] + [['if', ['un', 'not_empty', ['var', ta]], [['unrelate', l, ta, 'R4', '']], [], None]]
-        return pre[1:] + [['if', ['un', 'not_empty', ['var', tx]], [['unrelate', tx, l, 'R4', '']], [], None]]
+            self.declare(ta, V('inst', 'A', False))
+            return self.guard_ne([l], pre[:1] + [['if', ['un', 'not_empty', ['var', ta]], [['unrelate', l, ta, 'R4', '']], [], None]])
+        self.declare(tx, V('inst', 'X', False))
+        return self.guard_ne([l], pre[1:] + [['if', ['un', 'not_empty', ['var', tx]], [['unrelate', tx, l, 'R4', '']], [], None]])
 
     def st_arith_guard(self, depth):
         """division and remainder by a VARIABLE, guarded in the program"""
@@ -1146,6 +1175,9 @@ class ProgGen(object):
         return modes
 
     def leave_loop(self):
+        if self.loop_depth == 1:
+            self.str_bound += 400
+            self.int_bits += 400
         self.loop_del = self.loop_del[:-1]
         self.loop_reassign = self.loop_reassign[:-1]
         self.loop_scope_depth = self.loop_scope_depth[:-1]
@@ -1242,6 +1274,31 @@ class ProgGen(object):
         if self.rng.random() < 0.7:
             return [['if', self.gen_expr('boolean', 2), [['stop']], [], None]]
         return [['stop']], True
+
+
+def _nonliteral_leaves(e):
+    k = e[0]
+    if k == 'bin':
+        return _nonliteral_leaves(e[2]) + _nonliteral_leaves(e[3])
+    if k == 'un':
+        return _nonliteral_leaves(e[2])
+    return 0 if k in ('int', 'str', 'bool') else 1
+
+
+def _bits(e, cur):
+    k = e[0]
+    if k == 'int':
+        return 5
+    if k == 'bin':
+        a, b = _bits(e[2], cur), _bits(e[3], cur)
+        if e[1] == '*':
+            return a + b
+        if e[1] in ('/', '%'):
+            return a
+        return max(a, b) + 1
+    if k == 'un':
+        return _bits(e[2], cur) if e[1] in ('-', '+') else 8
+    return cur
 
 
 def gen_kwargs(rng):
